@@ -1052,3 +1052,76 @@ m("C12", "refactor-render-locals", TP,
         target_language = __kw.get("target_language")''',
   '''        target_language = __kw.get("target_language")
         stream = self.output_stream_factory()''', expect="silent")
+
+# ---- C11 -------------------------------------------------------------------
+m("C11", "split-ignores-separator", T,
+  "            offset += len(s) + (len(sep) if sep is not None else 0)",
+  "            offset += len(s)")
+m("C11", "slice-pos-not-advanced", T,
+  "                s, self.pos + (index.start or 0), self.source, self.filename)",
+  "                s, self.pos, self.source, self.filename)")
+m("C11", "lstrip-keeps-pos", T,
+  "            s, self.pos + len(self) - len(s), self.source, self.filename)",
+  "            s, self.pos, self.source, self.filename)")
+m("C11", "rstrip-moves-pos", T,
+  '''        s = str.rstrip(self, chars)
+        return Token(s, self.pos, self.source, self.filename)''',
+  '''        s = str.rstrip(self, chars)
+        return Token(s, self.pos + len(self) - len(s), self.source, self.filename)''')
+m("C11", "groups-plain-strings", PA,
+  '''        if group is not None:
+            j, k = m.span(i + 1)
+            group = token[j:k]
+
+        result.append(group)''',
+  '''        result.append(group)''')
+m("C11", "error-token-lowercased", ZP,
+  '''            raise CompilationError(
+                "Bad attribute for namespace '%s'" % ns, name
+            )''',
+  '''            raise CompilationError(
+                "Bad attribute for namespace '%s'" % ns, name.lower()
+            )''')
+m("C11", "error-token-formatted", ZP,
+  '''                raise LanguageError(
+                    "Must define switch on a parent element.", clause
+                )''',
+  '''                raise LanguageError(
+                    "Must define switch on a parent element.",
+                    "tal:case=%s" % clause
+                )''')
+m("C11", "repeat-assert-back", ZP,
+  '''            if len(defines) != 1:
+                raise LanguageError(
+                    "Invalid repeat syntax (one definition expected).",
+                    clause
+                )''',
+  '''            assert len(defines) == 1''')
+m("C11", "valueerror-for-bad-interpolation", ZP,
+  '''            raise LanguageError("Bad interpolation setting.", clause)''',
+  '''            raise ValueError("Bad interpolation setting: %s" % clause)''')
+m("C11", "filename-not-stamped", TP,
+  '''            except TemplateError as exc:
+                # normalize to str
+                exc.token.filename = str(self.filename)
+                raise''',
+  '''            except TemplateError:
+                raise''')
+m("C11", "define-names-rsplit", TL,
+  "            names = [n.strip() for n in name.strip('()').split(',')]",
+  "            names = [n.strip() for n in name.strip('()').rsplit(',')]",
+  expect="silent")  # no raise site in this function uses 'names'
+m("C11", "entity-shrinks-before-split", TL,
+  '''    arg = arg.replace(";;", "\\0")
+    parts = arg.split(';')''',
+  '''    arg = arg.replace(";;", "\\0").replace("&amp;", "&")
+    parts = arg.split(';')''', expect="silent")  # already a known finding site
+m("C11", "syntaxerror-plain-token", TA,
+  '''            raise ExpressionError(exc.msg, string)''',
+  '''            raise ExpressionError(exc.msg, str(string))''')
+m("C11", "refactor-split-find", T,
+  '''            if sep is None:
+                # skip the whitespace run in front of this part
+                offset = str.find(self, s, offset)''',
+  '''            if sep is None:
+                offset = str.index(self, s, offset)''', expect="silent")
